@@ -476,6 +476,9 @@ def r7(tree, rep):
 
 def run(tree, rep, tier):
     from .. import round9 as _r9
+    _r9.no_hashing_of_peer_values(tree, rep, "C20.R10", (("src/wormhole/_hints.py", None, "parse_tcp_v1_hint"), ("src/wormhole/_hints.py", None, "parse_hint"),
+                                     ("src/wormhole/transit.py", "Common", "add_connection_hints"), ("src/wormhole/_dilation/manager.py", "Manager", "use_hints"),
+                                     ("src/wormhole/_dilation/connector.py", "Connector", "_use_hints")))
     _r9.only_caller(tree, rep, "C20.R9", "src/wormhole/_dilation/manager.py", "Manager", "self._connector.got_hints", ("use_hints",),
                     "peer hints reach the Connector on a path that does not go through use_hints' parse-and-drop-None step: an unrecognised hint "
                     "(parse_hint gives None) is handed to Connector._use_hints, which raises inside the handler of a peer message")
@@ -513,3 +516,5 @@ REWRITES.append(Rewrite("connector-none-endpoint-guard-inverted", CTR, "        
                         "        if not ep:\n            return None\n        desc = describe_hint_obj(h, is_relay, self._tor)", desc="truthiness spelling of the endpoint test"))
 
 MUTANTS.append(Mutant("early-hints-replayed-unfiltered", "src/wormhole/_dilation/manager.py", "        self._connector.start()\n", "        self._connector.start()\n        self._connector.got_hints([parse_hint(hs) for hs in getattr(self, \"_early\", [])])\n", "C20.R9", "seed C20-18"))
+
+MUTANTS.append(Mutant("hint-type-in-frozenset", "src/wormhole/_hints.py", "    if hint_type not in [\"direct-tcp-v1\", \"tor-tcp-v1\"]:", "    if hint_type not in {\"direct-tcp-v1\", \"tor-tcp-v1\"}:", ("C20.R10", "C20.R"), "seeds C11-21 / C20-21"))
